@@ -25,7 +25,7 @@ COMPONENTS = {"real": ["binary diff encoder (binarydiff.c)", "archive writer/rea
               "simulated": ["snapshot-instant observer (fopen seam)", "wall clock incl. jumps", "heap placement (hostile allocator: garbage fill, always-move realloc, poison)"]}
 ASSUMPTIONS = ["the serialiser is idempotent (calling it from the fopen observer right before the library calls it does not change what the library writes)",
                "callbacks are re-attached to every loaded snapshot before it is compared (field 87 records only whether any callback is set)"]
-PROBES = ["vanished_field_history", "grew_past_128", "N_dropped_to_zero", "reopened", "auto_step_snapshots", "auto_interval_snapshots", "merge_changed_N", "op_raised", "returned_to_first_snapshot_time"]
+PROBES = ["vanished_field_history", "grew_past_128", "N_dropped_to_zero", "reopened", "auto_step_snapshots", "auto_interval_snapshots", "merge_changed_N", "op_raised", "returned_to_first_snapshot_time", "switched_to_new_archive_file"]
 
 INTEGS = ["ias15", "whfast", "saba", "eos", "leapfrog", "janus", "mercurius", "trace", "bs", "sei", "none"]
 SETS = [("softening", [0.0, 1e-3]), ("exit_max_distance", [0.0, 500.0]), ("ri_ias15.epsilon", [1e-9, 1e-7]), ("ri_ias15.adaptive_mode", [0, 1, 2, 3]),
@@ -60,11 +60,16 @@ def generate(rng, tier, index):
         pk, co = o.randint(0, 20), o.choice(["vz", "z", "vy", "x"])
         first = o.choice([0, 1])
         ops += [dict(op="signed_zero", pick=pk, coord=co, neg=first), dict(op="snapshot"), dict(op="signed_zero", pick=pk, coord=co, neg=1 - first), dict(op="snapshot")]
+    if auto and o.chance(0.12):
+        # an armed run is pointed at a fresh file half way (same cadence): the new archive starts with the state at that moment
+        v = o.randint(1, 4) if auto == "step" else abs(cfg["dt"]) * o.choice([1.0, 2.5, 4.0])
+        ops += [dict(op="arm", kind=auto, value=v), dict(op="integrate", span=abs(cfg["dt"]) * o.choice([3.3, 7.0]), exact=o.choice([None, 0, 1])),
+                dict(op="new_file"), dict(op="integrate", span=abs(cfg["dt"]) * o.choice([3.3, 7.0]), exact=o.choice([None, 0, 1]))]
     for i in range(nops):
         kind = o.weighted([("steps", 26), ("integrate", 10), ("snapshot", 24), ("add", 8), ("add_many", 1.5), ("remove", 8), ("remove_hash", 3),
                            ("remove_all", 2), ("switch", 6), ("reset_integrator", 4), ("set", 6), ("add_variation", 2), ("megno", 1),
                            ("display_settings", 1), ("move", 3), ("sync", 3), ("arm", 6 if auto else 0), ("clock_jump", 2),
-                           ("reopen", 3), ("signed_zero", 2.5), ("back_to_t0", 2.5 if not auto else 0), ("add_overlap", 4 if merge else 0), ("set_lrescale", 3 if (cfg.get("var") or cfg.get("megno")) else 0.3)])
+                           ("reopen", 3), ("new_file", 4 if auto else 0), ("signed_zero", 2.5), ("back_to_t0", 2.5 if not auto else 0), ("add_overlap", 4 if merge else 0), ("set_lrescale", 3 if (cfg.get("var") or cfg.get("megno")) else 0.3)])
         if kind == "steps":
             ops.append(dict(op="steps", n=o.randint(1, 12)))
         elif kind == "integrate":
@@ -161,6 +166,7 @@ def execute(case, ctx):
     path = os.path.join(ctx.tmpdir, "c06.bin")
     if os.path.exists(path):
         os.unlink(path)
+    cur = {"path": path, "n": 0}
     box = {"sim": simgen.build(rebound, rb, cfg)}
     if cfg.get("hb"):
         rb.hb_attach(box["sim"])
@@ -185,22 +191,41 @@ def execute(case, ctx):
             nb = len(model)
             try:
                 with rb.quiet():
-                    try:
-                        sim.process_messages()
-                    except RuntimeError:
-                        pass
+                    for _ in range(64):     # (one queued error is raised per call: drain them all, or the next Python call raises a stale one)
+                        try:
+                            sim.process_messages()
+                            break
+                        except RuntimeError:
+                            pass
                     if k == "snapshot":
-                        sim.save_to_file(path)
+                        sim.save_to_file(cur["path"])
                     elif k == "arm":
                         if op["kind"] == "step":
-                            sim.save_to_file(path, step=op["value"])
+                            sim.save_to_file(cur["path"], step=op["value"])
                             if state["auto_kind"] != "step" or state["auto_val"] != op["value"]:
                                 state.update(auto_kind="step", auto_val=op["value"], next=sim.steps_done)
                         else:
-                            sim.save_to_file(path, interval=op["value"])
+                            sim.save_to_file(cur["path"], interval=op["value"])
                             if state["auto_kind"] != "interval" or state["auto_val"] != op["value"]:
                                 state.update(auto_kind="interval", auto_val=op["value"], next=sim.t)
                         state["armed"] = True
+                    elif k == "new_file":
+                        # the run is pointed at a fresh archive file with the same automatic cadence (delete_file=True, file does not exist):
+                        # the schedule starts over, the first snapshot of the new archive is the state at the next boundary
+                        if state.get("armed") and state["auto_kind"] and model:
+                            cur["n"] += 1
+                            cur["path"] = os.path.join(ctx.tmpdir, "c06-%d.bin" % cur["n"])
+                            if os.path.exists(cur["path"]):
+                                os.unlink(cur["path"])
+                            del model[:]
+                            del cad_states[:]
+                            if state["auto_kind"] == "step":
+                                state.update(next=sim.steps_done)
+                                sim.save_to_file(cur["path"], step=state["auto_val"], delete_file=True)
+                            else:
+                                state.update(next=sim.t)
+                                sim.save_to_file(cur["path"], interval=state["auto_val"], delete_file=True)
+                            probe("switched_to_new_archive_file")
                     elif k == "add_many":
                         n0 = sim.N
                         for p in op["ps"]:
@@ -228,7 +253,7 @@ def execute(case, ctx):
                                 probe("returned_to_first_snapshot_time")
                     elif k == "reopen":
                         if model:
-                            new = rebound.Simulation(path)
+                            new = rebound.Simulation(cur["path"])
                             simgen.attach_callbacks(rebound, rb, new, cfg)
                             rb.hb_attach(new)
                             box["sim"] = new
@@ -238,9 +263,9 @@ def execute(case, ctx):
                             state.update(auto_kind=st[0], auto_val=st[1], next=st[2])
                             if state.get("armed") and state["auto_kind"]:
                                 if state["auto_kind"] == "step":
-                                    sim.save_to_file(path, step=state["auto_val"])
+                                    sim.save_to_file(cur["path"], step=state["auto_val"])
                                 else:
-                                    sim.save_to_file(path, interval=state["auto_val"])
+                                    sim.save_to_file(cur["path"], interval=state["auto_val"])
                     elif k == "integrate":
                         rb.hb_reset()
                         state["in_integrate"] = True
@@ -314,7 +339,7 @@ def execute(case, ctx):
     box["sim"] = None
     with rb.quiet() as q:
         try:
-            sa = rebound.Simulationarchive(path)
+            sa = rebound.Simulationarchive(cur["path"])
         except RuntimeError as e:
             viol("archive", "archive unreadable after a fault-free history", "%d snapshots written: %s" % (len(model), e))
             return result
